@@ -54,18 +54,19 @@ Section Full.
   Qed.
 
   (* a regular member that extract_tar_stream finishes without error is written with all its bytes *)
-  Lemma extract_member_file_full : forall fuel base bufsz h od r t t' r',
+  Lemma extract_member_file_full : forall reb fuel base bufsz h od r t t' r',
     bufsz <> Some 0 -> isreg (h_type h) = true ->
-    extract_member St rd sk false fuel base bufsz h od r t = (Done, t', r') ->
+    extract_member_g St rd sk false reb fuel base bufsz h od r t = (Done, t', r') ->
     exists p data, t' = t_set p (EFile (h_mode h) data) t /\ lenN data = h_size h.
   Proof.
-    intros fuel base bufsz h od r t t' r' Hb Hreg H. unfold extract_member in H. rewrite Hreg in H.
-    destruct (t_isdir [] t && bytes_eqb (h_name h) base).
-    - match type of H with context [copyfileobj St rd false fuel ?a ?b r []] =>
+    intros reb fuel base bufsz h od r t t' r' Hb Hreg H. unfold extract_member_g in H. cbv zeta in H. rewrite Hreg in H.
+    destruct (t_isdir (if reb then base else []) t && bytes_eqb (h_name h) base).
+    - destruct reb; [discriminate|].
+      match type of H with context [copyfileobj St rd false fuel ?a ?b r []] =>
         destruct (copyfileobj St rd false fuel a b r []) as [[o d] q] eqn:E end.
       destruct o; try discriminate. injection H as <- _. apply copyfileobj_done in E.
       exists base, d. split; [reflexivity|]. simpl in E. lia.
-    - destruct (rel_under base (h_name h)) as [p|]; [|discriminate].
+    - destruct (relp reb base (h_name h)) as [p|]; [|discriminate].
       destruct (negb _ || t_isdir p t); [discriminate|].
       destruct (fsr_loop St rd sk false fuel bufsz od (h_size h) 0 r []) as [[o d] q] eqn:E.
       destruct o; try discriminate. injection H as <- _. apply fsr_done_full in E; [|assumption|lia].
@@ -269,7 +270,13 @@ Lemma no_partial_file_chunked : forall fuel base bufsz h od r t t' r',
   bufsz <> Some 0 -> isreg (h_type h) = true ->
   extract_member stream tread skip_new false fuel base bufsz h od r t = (Done, t', r') ->
   exists p data, t' = t_set p (EFile (h_mode h) data) t /\ lenN data = h_size h.
-Proof. intros. eapply (extract_member_file_full stream tread skip_new tread_le); eassumption. Qed.
+Proof. intros. eapply (extract_member_file_full stream tread skip_new tread_le false); eassumption. Qed.
+(* the same after dst has been rebound to dst/<basename(src)> (directory extracted into an existing directory) *)
+Lemma no_partial_file_rebound : forall fuel base bufsz h od r t t' r',
+  bufsz <> Some 0 -> isreg (h_type h) = true ->
+  extract_member_g stream tread skip_new false true fuel base bufsz h od r t = (Done, t', r') ->
+  exists p data, t' = t_set p (EFile (h_mode h) data) t /\ lenN data = h_size h.
+Proof. intros. eapply (extract_member_file_full stream tread skip_new tread_le true); eassumption. Qed.
 
 Definition fewer (a b : outcome * list (hdr * bytes)) : Prop :=
   fst a = Done /\ fst b = Done /\ (length (snd a) < length (snd b))%nat.
